@@ -13,18 +13,18 @@ CHECKS = {
     "C13": dict(
         text="Partial ('nothing invalid is emitted'): every packet emission in the deframer is dominated by the length, minimum-size and "
              "(checksum on) CRC-equality guards; over-long accumulations are abandoned; after a recognised closing flag the state is "
-             "Synced (a rejected frame does not disturb the next); frame-length arithmetic is guarded. 'Every valid frame is recovered' is "
+             "Synced and restarts with no collected bits (a rejected frame does not disturb the next); frame-length arithmetic is guarded. 'Every valid frame is recovered' is "
              "a round-trip value property and is not decided.",
         design="§4 C13", technique="guard-fact dominance on MIR + content-taint/guard analysis"),
     "C14": dict(
         text="Partial: writer/reader table agreement (each Sample impl and the AU pair use the same primitive type, width and byte "
              "order), each AuDecode phase consumes what it parsed, partial-read arithmetic of the byte sources is guarded, and a fast "
-             "path emitting freshly read bytes is dominated by carry-buffer emptiness. Identity of composed byte streams is not decided.",
+             "path emitting freshly read bytes is dominated by carry-buffer emptiness, and carry bytes are dropped only after having been read. Identity of composed byte streams is not decided.",
         design="§4 C14", technique="sibling agreement of codec call tables + must-pass path rules + taint/guard analysis on MIR"),
     "C15": dict(
         text="Partial, audited: explicit-flow content taint (plus limited implicit flow into accumulators) over everything reachable "
              "from Block::work and the parsers; every content-tainted panic edge (checked subtraction/narrow arithmetic, division, "
-             "explicit assert/panic, unwrap/expect, indexing/slice ops) must be discharged by a dominating guard or be listed with a "
+             "explicit assert/panic, unwrap/expect, indexing/slice ops) must be discharged by a dominating guard, by a path-sensitive search over a counter field's None/0/>0 states, or be listed with a "
              "reason in an exact audit table. Non-termination, dependency panics and 64-bit counter overflow are not decided.",
         design="§4 C15", technique="interprocedural content-taint analysis + guard discharge on MIR, exact audit table"),
     "C03": dict(
@@ -44,7 +44,7 @@ CHECKS = {
     "C12": dict(
         text="Partial: the stream stores only tags of committed samples and consume(0) removes none (central contract), and on "
              "the generated sync path input tags are selected by == loop index, re-emitted at that index and handed to every "
-             "produce(), for every arity of the generated family. Index mapping of hand-written blocks is not decided.",
+             "produce(), for every arity of the generated family; hand-written rate changers divide forwarded positions by the same ratio on every path to the commit, and a forwarded tag list comes from the read_buf() whose window is consumed with it. Other index arithmetic of hand-written blocks is not decided.",
         design="§4 C12", technique="guard dominance + structural rules on macro-generated MIR"),
     "C19": dict(
         text="Programs quantified over: a generated family (sync, sync_tag x 1..3 inputs x 1..3 outputs x plain/default+into) and "
@@ -60,20 +60,20 @@ CHECKS = {
         design="§4 C09", technique="type facts + effect-avoiding path search + guard/verdict agreement on MIR"),
     "C02": dict(
         text="Structural necessary conditions only: who-may-write on the stream's tag map (only commit adds, only consume "
-             "removes, the read window mutates nothing) and commit stores a tag only behind tag.pos() < n. The modular "
+             "removes, the read window mutates nothing), commit stores a tag only behind tag.pos() < n and under a key reduced modulo the capacity, removal sits behind n != 0, the read window uses only stable sorts. The modular "
              "range arithmetic of removal/re-basing (incl. consume(0)) is a value property and is not decided.",
         design="§4 C02", technique="who-may-call rule + guard dominance on MIR"),
     "C16": dict(
         text="Structural necessary conditions: checked subtractions in the Repeat counter are discharged by dominating "
              "guards; every finite source tests done() before any produce and never produces after done()==true "
-             "(sibling agreement); marker tags are created only under progress==0; Infinite never reports done. "
+             "(sibling agreement); marker tags are created only under progress==0; Infinite never reports done; a read never pulls more bytes than the output window takes; the end of a repetition is decided only on read()==0 or byte-counter==0. "
              "Emission counts for data larger than the buffer are values and are not decided.",
         design="§4 C16", technique="guard-fact dominance + must-pass path rules on MIR"),
     "C01": dict(
         text="Structural necessary conditions only: every write of the ring positions is dominated by the ok-edge of a "
              "real comparison of the requested count with the fill level (oversize commit/consume refused before any "
              "state changes); the constructor gates on size % element size; the single raw slice is bounded by the "
-             "mapping and windows come from checked indexing. Data identity/order/wrap arithmetic are not decided.",
+             "mapping and windows come from checked indexing; each side writes only its own position, from values read under the same lock acquisition. Data identity/order/wrap arithmetic are not decided.",
         design="§4 C01", technique="MIR dominance analysis of guards over state writes"),
     "C17": dict(
         text="Abstract interpretation of the OpenOptions builder per `match mode` arm against the documented table "
@@ -89,7 +89,7 @@ CHECKS = {
         text="Static ordering/dominance analysis on MIR of the stream ends: the peer-liveness read precedes the final "
              "buffered-amount read on every path to an end-of-stream verdict (or happens under the still-held data "
              "lock); every non-false verdict is equivalent to / guarded by handle-count==1; all condvar waits are "
-             "timed with constant non-zero timeouts; every derive-generated eof() is the conjunction over all inputs. "
+             "timed with constant non-zero timeouts; every derive-generated eof() is the conjunction over all inputs (path-sensitive); the multithreaded runner acts on wait()'s verdict only; amounts behind verdicts derive from the fill counter. "
              "This decides the check-then-act ordering the property describes, for all schedules, not the latency.",
         design="§4 C04", technique="MIR path-ordering + dominance analysis (rustc_private driver + Python rules)"),
     "C05": dict(
